@@ -21,7 +21,10 @@ RULE = ("Case = nc 1..400 x ns 1..400 x dtype f4/f8 x full-scale range (scalar p
         "v_per_sec*fs, flagged iff a count >= k0+1 (three-valued: a count that depends on a value within 8 eps of an "
         "inexact threshold is not asserted); mute in [0,1], <=1e-9 on flags, >=1-1e-9 farther than the half width, "
         "== clip(1 - sum flags*sine window) by a direct loop (1e-9), and equal (1e-12) to the mute of a 3-channel "
-        "synthetic recording with the same flags. All flag patterns of length <= 10 (quick) / 13 (thorough) are "
+        "synthetic recording with the same flags. One case in ten is end to end: a generated SpikeGLX recording (every probe "
+        "generation, AP/LF) whose raw samples sit >= 2 counts below/above 98 % of the converter's maximum integer is read "
+        "through spikeglx.Reader, saturation() gets Reader.range_volts as full scale, and the flags must equal the channel "
+        "counts of raw samples beyond the limit. All flag patterns of length <= 10 (quick) / 13 (thorough) are "
         "enumerated through one-channel recordings (voltage- and slew-driven). Non-trivial = some sample whose larger "
         "count equals k0+1, or k0 >= 1 and equals k0, or a flagged run touching an end. Distinct = distinct case hash.")
 EXHAUSTIVE_NOTE = ("every flag pattern of length 1..10 (quick) / 1..13 (thorough) x odd taper widths is enumerated for the "
@@ -152,8 +155,23 @@ def _case(draw):
     return case
 
 
+@st.composite
+def _reader_case(draw):
+    """End to end, as decompress_destripe_cbin uses it: the full-scale voltage comes from Reader.range_volts of a generated
+    recording whose raw int16 samples sit clearly (>= 2 counts) below / above 98 % of the converter's maximum integer."""
+    from vp.gens import meta as gm
+    spec = draw(gm.st_spec(n_choices=(2, 3, 5, 8, 16, 40, 384), ns_range=(12, 60), patterns=("dense", "random")))
+    nchan = spec["n"]
+    k0 = draw(st.integers(0, nchan - 1))
+    nev = draw(st.integers(1, 5))
+    events = [{"t": draw(st.integers(0, spec["ns"] - 1)), "dk": draw(st.sampled_from([0, 1, 1, 2, "all"])),
+               "sign": draw(st.sampled_from([1, -1, 0]))} for _ in range(nev)]
+    return {"kind": "reader", "spec": spec, "k0": k0, "events": events, "seed": draw(st.integers(0, 2 ** 32 - 1)),
+            "M": draw(st.sampled_from([1, 3, 7, 7, 9])), "hot": draw(st.booleans())}
+
+
 def strategy(tier):
-    return _case()
+    return st.one_of(*([_case()] * 9 + [_reader_case()]))
 
 
 # ------------------------------------------------------------------------------------------------------------------
@@ -602,8 +620,74 @@ def _run_data(case, ctx):
     _check_depends_on_flags(ctx, sat, flags, mute, m)
 
 
+def _run_reader(case, ctx):
+    from vp.gens import meta as gm, recording as rec
+    spec = case["spec"]
+    nc, ns, nchan = gm.n_channels(spec), spec["ns"], spec["n"]
+    nsync = nc - nchan
+    # maximum integer of the converter, read off the generator's parameters (SpikeGLX: imMaxInt, default 512 for NP1)
+    maxint = spec.get("maxint") or (512 if spec["gen"] not in ("NP2.1", "NP2.4") else 8192)
+    thr = 0.98 * maxint
+    over, under = int(math.ceil(thr)) + 2, int(math.floor(thr)) - 2
+    rng = np.random.default_rng(case["seed"])
+    D = rng.integers(-under // 2, under // 2 + 1, size=(ns, nc)).astype(np.int16)
+    k0 = case["k0"]
+    if case["hot"]:
+        D[:, rng.permutation(nchan)[:k0]] = under  # k0 channels sit just below the limit all the time
+    counts = np.zeros(ns, dtype=int)
+    for ev in case["events"]:
+        k = nchan if ev["dk"] == "all" else min(nchan, k0 + ev["dk"])
+        chans = rng.permutation(nchan)[:k]
+        sign = ev["sign"] or rng.choice([-1, 1], size=k)
+        D[ev["t"], :nchan] = np.minimum(np.abs(D[ev["t"], :nchan]), under)
+        D[ev["t"], chans] = over * sign
+    counts = (np.abs(D[:, :nchan].astype(np.int64)) > thr).sum(axis=1)
+    exp_flags = counts >= k0 + 1
+    p = (k0 + 0.5) / nchan
+    ctx.label("reader", "reader_" + spec["gen"], "reader_" + spec["stream"], f"reader_maxint{maxint}")
+    if np.any(counts == k0 + 1) or (k0 >= 1 and np.any(counts == k0)):
+        ctx.nontrivial = True
+    sg, vo = sut.spikeglx(), sut.voltage()
+    with rec.scratch_dir(ctx) as d:
+        binf = rec.write_recording(d, spec, D)
+        sr = ctx.call("C16.reader.open", sg.Reader, binf, sort=False)
+        if sr is ctx.CRASH:
+            return
+        try:
+            rv = ctx.call("C16.reader.range_volts", lambda: np.asarray(sr.range_volts))
+            data = ctx.call("C16.reader.read", lambda: sr[:, :nchan].T)
+            s2v = ctx.call("C16.reader.read", lambda: np.asarray(sr.sample2volts))
+        finally:
+            try:
+                sr.close()
+            except Exception:  # noqa
+                pass
+    if rv is ctx.CRASH or data is ctx.CRASH or s2v is ctx.CRASH:
+        return
+    if not ctx.check(np.shape(rv) == (nc,) and np.shape(s2v) == (nc,), "C16.reader.range_shape",
+                     lambda: f"range_volts has shape {np.shape(rv)} for {nc} channels"):
+        return
+    # full scale == volts of the maximum integer, channel by channel (float32 tolerance)
+    ctx.check(np.allclose(rv[:nchan], s2v[:nchan] * maxint, rtol=1e-6, atol=0), "C16.reader.full_scale",
+              lambda: f"range_volts {rv[:3]} is not volts-per-bit x {maxint} {s2v[:3] * maxint}")
+    # flags far above any step of this data: the slew criterion is switched off
+    r = ctx.call("C16.saturation", vo.saturation, data, max_voltage=rv[:nchan], v_per_sec=1e9, fs=spec["fs"],
+                 proportion=p, mute_window_samples=case["M"])
+    if r is ctx.CRASH or not _check_types(ctx, r, ns):
+        return
+    sat, mute = np.asarray(r[0]).astype(bool), np.asarray(r[1], dtype=float)
+    bad = sat != exp_flags
+    ctx.check(not bad.any(), "C16.reader.flags",
+              lambda: f"{spec['gen']} {spec['stream']} maxint {maxint}: flags from Reader.range_volts differ from the count of raw samples "
+                      f"beyond 98 % of {maxint} at samples {np.where(bad)[0][:5].tolist()} (counts {counts[bad][:5].tolist()}, k0={k0})")
+    if not bad.any():
+        _check_mute(ctx, exp_flags, mute, case["M"])
+
+
 def run_case(case, ctx):
     if case.get("kind") == "pattern":
         _run_pattern(case, ctx)
+    elif case.get("kind") == "reader":
+        _run_reader(case, ctx)
     else:
         _run_data(case, ctx)
